@@ -42,7 +42,7 @@ def _qt(g, name, shape, dtype, r, qmode=None):
 
 def fam_hostile(seed):
     r = rng_for("hostile", seed)
-    kind = int(r.integers(0, 17))
+    kind = int(r.integers(0, 18))
     g = G(r, "int8")
     sub = "?"
     if kind == 0:  # unary builtin on random rank / dtype
@@ -358,6 +358,36 @@ def fam_hostile(seed):
             g.const("oshape", (4,), "int32", [1, 2 * h, 2 * w, 8])
             g.act("o", (1, 2 * h, 2 * w, 8))
             g.net.add_o(BO.TRANSPOSE_CONV, ["oshape", "w", x, None] if r.integers(0, 2) else ["oshape", "w", x], ["o"], "TransposeConvOptions", dict(padding=PAD_SAME, stride_w=2, stride_h=2), 3)
+        outs = ["o"]
+    elif kind == 16:  # options tables whose numeric fields are zero / negative (e.g. a table with every field at its schema default)
+        sub = "degenerate-options"
+        h, w, c = int(r.choice([2, 4])), int(r.choice([2, 4])), int(r.choice([4, 8]))
+        x = g.input([1, h, w, c])
+        X = g.T(x)
+        t = int(r.integers(0, 6))
+        bad = int(r.choice([0, 0, -1]))
+        if t in (0, 1):  # pooling
+            opts = {} if t == 0 else dict(padding=int(r.integers(0, 2)), stride_w=int(r.choice([bad, 1])), stride_h=bad, filter_width=int(r.choice([0, 2])), filter_height=2, fused_activation_function=0)
+            g.act("o", (1, h, w, c), X.scale[0], X.zp[0])
+            g.net.add_o(int(r.choice([BO.MAX_POOL_2D, BO.AVERAGE_POOL_2D])), [x], ["o"], "Pool2DOptions", opts, 2)
+        elif t in (2, 3, 4):  # convolutions: zero stride, zero dilation, empty table
+            dw = t == 3
+            ws = (1, 1, 1, c) if dw else (8, 1, 1, c)
+            oc = c if dw else 8
+            g.const("w", ws, "int8", g.rweights(ws), [0.01], [0])
+            g.const("b", (oc,), "int32", r.integers(-100, 100, (oc,)), [float(np.float32(X.scale[0] * 0.01))], [0])
+            g.act("o", (1, h, w, oc))
+            v = int(r.integers(0, 3))
+            opts = {} if v == 0 else dict(padding=PAD_SAME, stride_w=1 if v == 2 else bad, stride_h=1 if v == 2 else bad, dilation_w_factor=bad if v == 2 else 1, dilation_h_factor=bad if v == 2 else 1,
+                                          fused_activation_function=0)
+            if dw and v:
+                opts["depth_multiplier"] = 1
+            g.net.add_o(BO.DEPTHWISE_CONV_2D if dw else BO.CONV_2D, [x, "w", "b"], ["o"], "DepthwiseConv2DOptions" if dw else "Conv2DOptions", opts, 3)
+        else:  # transpose convolution
+            g.const("w", (8, 2, 2, c), "int8", g.rweights((8, 2, 2, c)), [0.01], [0])
+            g.const("oshape", (4,), "int32", [1, 2 * h, 2 * w, 8])
+            g.act("o", (1, 2 * h, 2 * w, 8))
+            g.net.add_o(BO.TRANSPOSE_CONV, ["oshape", "w", x], ["o"], "TransposeConvOptions", dict(padding=PAD_SAME, stride_w=bad, stride_h=int(r.choice([bad, 2]))), 3)
         outs = ["o"]
     else:  # custom operator + unsupported + supported sandwich
         sub = "custom-sandwich"
